@@ -3590,8 +3590,14 @@ async def _helper_rename_folder(mbox: Mailbox, new_name: str) -> None:
 
     # and now we remove the symlink and rename the old dir to the new dir
     #
-    await aiofiles.os.remove(new_dir)
-    await aiofiles.os.rename(old_dir, new_dir)
+    # NOTE: These two are done synchronously, back to back. If another task
+    #       got to run in between (which awaiting them allows) it would find
+    #       that the mailbox's folder does not exist: a management task that
+    #       polls its folder at that moment concludes the mailbox has been
+    #       deleted and exits, and every later command on the mailbox hangs.
+    #
+    os.remove(new_dir)
+    os.rename(old_dir, new_dir)
 
     # If this mailbox we just renamed had a parent, that parent mailbox might
     # no longer have any children after this rename, so we have to update its
